@@ -5,14 +5,20 @@ import CoxeterVerif.Model.Tabulated
   1. What "is the solid its name says" is checked against, entered BY HAND from the
      standard literature (Coxeter, *Regular Polytopes*; Cromwell, *Polyhedra*; Johnson 1966)
      and independent of /repo: `(V, E, F)` and the face-type census of the 5 Platonic,
-     13 Archimedean and 13 Catalan solids.
+     13 Archimedean and 13 Catalan solids, and `(V, E, F)` of the 92 Johnson solids by number
+     (`namespace Textbook`, second half of this file).
   2. Executable, Bool-valued geometric predicates on integer data scaled by 10¹⁸
-     (`Tab.Entry`).  They use only `+ - *` and comparisons of integers and structural
-     recursion on lists, so the kernel evaluates them (`decide +kernel`); the tolerances
-     (10⁻⁹, because the JSON holds 16-digit decimals) are part of the predicates:
-       distances to planes      ≤ 10⁻⁹            (absolute; the solids have size ≈ 1)
-       volume                   within 10⁻⁹ of 1
+     (`Tab.Entry`).  They use only `+ - *` and comparisons of integers, bit operations on
+     naturals and structural recursion on lists, so the kernel evaluates them
+     (`decide +kernel`); the tolerances (10⁻⁹, because the JSON holds 16-digit decimals) are
+     part of the predicates:
+       distances to planes       ≤ 10⁻⁹            (absolute; the solids have size ≈ 1)
+       volume                    within 10⁻⁹ of 1
        squared lengths/distances equal within 2·10⁻⁹ relative (i.e. lengths within 10⁻⁹)
+     Where a predicate is written in a kernel-friendly way (bit sets, forced literals) a plain
+     **reference definition** stands next to it; `convexOk = convexOkRef` is a theorem
+     (`Lemmas/Tabulated.lean`), the two bit-set predicates are compared with their reference
+     definitions by the driver on every entry and on corrupted certificates in every run.
 -/
 namespace Tab
 
@@ -402,11 +408,32 @@ def archimedeanOk (e : Entry) : Bool :=
   polyhedronOk e && textbookOk Textbook.archimedean e && unitVolumeOk e && regularOk e
 def catalanOk (e : Entry) : Bool :=
   polyhedronOk e && textbookOk Textbook.catalan e && unitVolumeOk e && insphereOk e
-/-- the entry's Johnson number (`short_name`) is in the hand-entered list with these counts -/
+/-- `"J5"`, `"J05"`, `"J58"` ↦ 5, 5, 58 (the JSON writes the numbers with and without a leading
+    zero); anything else ↦ none -/
+def johnsonNumber (s : String) : Option Nat :=
+  match s.toList with
+  | 'J' :: d :: ds =>
+    if (d :: ds).all Char.isDigit then some ((d :: ds).foldl (fun n c => 10 * n + (c.toNat - 48)) 0)
+    else none
+  | _ => none
+
+/-- the entry's Johnson number (`short_name`) is in the hand-entered list (row `n − 1`) and the
+    entry has that row's counts -/
 def johnsonCountsOk (e : Entry) : Bool :=
-  match Textbook.johnson.find? (fun s => s.name == e.short) with
-  | none => false
-  | some s => matchesTextbook s e
+  match johnsonNumber e.short with
+  | some (k + 1) =>
+    (match Textbook.johnson[k]? with
+     | some s => matchesTextbook s e
+     | none => false)
+  | _ => false
+/-- the Johnson numbers of the entries are `1 … 92`, each once: 92 entries whose numbers form the
+    bit set `2⁹³ − 2` -/
+def coversJohnson (t : List Entry) : Bool :=
+  Nat.beq t.length Textbook.johnson.length
+    && t.all (fun e => (johnsonNumber e.short).isSome)
+    && Nat.beq (bitOr (t.map fun e => (johnsonNumber e.short).getD 0))
+        (Nat.sub (Nat.shiftLeft 1 (Textbook.johnson.length + 1)) 2)
+
 def johnsonOk (e : Entry) : Bool := polyhedronOk e && regularOk e && johnsonCountsOk e
 def plainOk (e : Entry) : Bool := polyhedronOk e
 def repositoryOk (lookup : String → List Entry) (e : Entry) : Bool :=
